@@ -1,6 +1,7 @@
 """Per-property checks.  Each function returns a process exit status (0 held / 1 violation)."""
 import json
 import os
+import re
 import sys
 
 from .common import Check, R, F, Program, all_results, sum_obligations, root_kind, properties_of, violation_key, strip_lines
@@ -126,8 +127,29 @@ def C10(tier):
                          explanation="error kind at every Err return equals the reference's classification of the first offending byte; TooManyHeaders only with a complete surplus line")
 
 
+def wider_language(res):
+    """(phase, reference error) pairs for which this implementation returns Complete where the
+    reference rejects: its accepted language is wider there (a grammar violation, C06-C09/C14)."""
+    out = set()
+    for v in res.get("violations", []):
+        if v["rule"].startswith("spec:verdict:"):
+            m = re.match(r"implementation returned Complete, reference says Err\((\w+)\)", v["detail"])
+            if m:
+                out.add((v["rule"].split(":", 2)[2], m.group(1)))
+    return out
+
+
+def c11_filter(v, job, res):
+    if v["rule"].startswith("spec:partial:"):
+        m = re.search(r"reference says Err\((\w+)\)", v["detail"])
+        if m and (v["rule"].split(":", 2)[2], m.group(1)) in wider_language(res):
+            # Partial is honest with respect to the (wider) language this implementation accepts
+            return False
+    return True
+
+
 def C11(tier):
-    return machine_check("C11", tier, kinds=("entry",), explanation=(
+    return machine_check("C11", tier, kinds=("entry",), pid_filter=c11_filter, explanation=(
         "every Partial return has no unread byte and the end of input observed, and the reference is then in a non-rejecting state "
         "(every non-final reference state can reach Complete, checked on the reference itself)"))
 
@@ -182,14 +204,31 @@ def C13(tier):
         roots = ["Request::parse", "Response::parse", "parse_headers", "parse_chunk_size"] if tier == "quick" else None
         jobs2 = R.entry_jobs("B0", "release", roots=roots)
         res2 = R.run_jobs(jobs2, budget=QUICK_BUDGET, th=th)
-        for j, r in zip(jobs2, res2):
-            if r and r.get("ok"):
+        jobs1 = R.entry_jobs("B0", "debug", roots=roots)
+        res1 = R.run_jobs(jobs1, budget=QUICK_BUDGET, th=th)
+
+        def keyset(jobs_, res_):
+            ks = {}
+            for j, r in zip(jobs_, res_):
+                if not r or not r.get("ok"):
+                    ks[("engine-failure", j["root"], str(j.get("preset")))] = {"rule": "engine-failure", "error": (r or {}).get("error")}
+                    continue
                 for v in r.get("violations", []):
-                    c.violation("profile-dependent|" + violation_key(v, j), dict(v, job=j, note="violation in the release-profile MIR"))
+                    if v["rule"].startswith("obligation:assert:") or v["rule"] in ("panic-reachable",):
+                        continue  # debug-only checks are C01's business; here: observable results
+                    ks[(v["rule"], j["root"], v["detail"])] = dict(v, job=j)
                 for u in r.get("unanalysable", []):
-                    c.violation("unanalysable:%s|release|%s" % (u["what"], j["root"]), dict(u, job=j))
-            else:
-                c.violation("engine-failure|release|%s" % j["root"], {"rule": "engine-failure", "error": (r or {}).get("error")})
+                    ks[("unanalysable:" + u["what"], j["root"], "")] = dict(u, job=j)
+            return ks
+
+        k1, k2 = keyset(jobs1, res1), keyset(jobs2, res2)
+        for k in set(k1) ^ set(k2):
+            rec = k1.get(k) or k2.get(k)
+            prof = "debug" if k in k1 else "release"
+            c.violation("profile-dependent|%s|%s|%s|%s" % (prof, k[0], k[1], k[2]),
+                        dict(rec, note="deviation from the reference only in the %s-profile MIR" % prof, rule="profile-dependent:" + k[0]))
+        c.obligations += len(set(k1) | set(k2)) + 1
+        c.discharged += len(set(k1) & set(k2)) + 1
         n, ok, per = sum_obligations(res2)
         paths = sum(r["results"] for r in all_results(res2))
         c.obligations += n + paths
@@ -211,17 +250,23 @@ def C15(tier):
     specrel.c15_conservative(c, tier)
     # the implementation equals the reference for every option value (C06/C07/C08/C14 jobs)
     jobs, results = machine_jobs(tier, roots=[r for r in R.ENTRY_ROOTS if r.startswith("ParserConfig::")], kinds=("entry",))
+    nondef, deflt = {}, {}
     for j, r in zip(jobs, results):
         if not r or not r.get("ok"):
             c.violation("engine-failure|%s" % j["root"], {"rule": "engine-failure", "error": (r or {}).get("error")})
             continue
         for u in r.get("unanalysable", []):
             c.violation("unanalysable:%s|%s" % (u["what"], j["root"]), dict(u, job=j))
+        from .common import nondefault_header_opts, nondefault_ms_opts
         for v in r.get("violations", []):
-            if v["rule"].startswith("spec:"):
-                from .common import nondefault_header_opts, nondefault_ms_opts
-                if nondefault_header_opts(v, j) or nondefault_ms_opts(v, j):
-                    c.violation("config-dependent|" + violation_key(v, j), dict(v, job=j, note="implementation deviates from the reference only under non-default options"))
+            if v["rule"].startswith("spec:") or v["rule"].startswith("hygiene:"):
+                p_ = v.get("path") or {}
+                k = (root_kind(j["root"]), v["rule"], v["detail"], ",".join((p_.get("consumed_classes") or [])[-4:]))
+                nd = nondefault_header_opts(v, j) or nondefault_ms_opts(v, j)
+                (nondef if nd else deflt).setdefault(k, dict(v, job=j))
+    for k, v in nondef.items():
+        if k not in deflt:
+            c.violation("config-dependent|%s|%s|%s" % (k[1], k[2], k[3]), dict(v, note="deviation from the reference only under non-default options", rule="config-dependent:" + k[1]))
     paths = sum(r["results"] for r in all_results(results))
     c.obligations += paths
     c.discharged += paths
